@@ -2,7 +2,7 @@ SPECIFICATION Spec
 CONSTANTS
   Digits = {0, 1, 2}
   IdLen = 3
-  MaxIds = 4
+  MaxIds = 3
   Bug = "none"
 INVARIANTS InvShortest InvShortestAbsent InvTwoLevel
 CHECK_DEADLOCK FALSE
